@@ -34,6 +34,14 @@ def f_eq(r, v, c):
     return n0(r, c) * np.exp(-0.5 * v * v / T) / np.sqrt(2.0 * np.pi * T)
 
 
+def init_ref(eta, c):
+    """initial distribution f_eq(r,v) (1 + eps exp(-(r-rp)^2/deltaR) cos(m theta + n z / R0)) on (r,theta,z,v)"""
+    r, q, z, v = [np.asarray(x, dtype=float) for x in eta]
+    pert = np.exp(-(r - c['rp']) ** 2 / c['deltaR'])[:, None, None] * \
+        np.cos(c['m'] * q[None, :, None] + c['n'] * z[None, None, :] / c['R0'])
+    return f_eq(r, v, c)[:, None, None, :] * (1.0 + c['eps'] * pert)[:, :, :, None]
+
+
 def constants_dict(constants):
     out = {}
     for k in dir(constants):
